@@ -41,6 +41,48 @@ pub fn rng(seed: u64, stream: &str) -> ChaCha20Rng {
     ChaCha20Rng::from_seed(h.finalize().into())
 }
 
+/// A seeded stream whose first bytes are fixed (all-zero / all-one prefixes give the degenerate random tapes: zero choice
+/// bits, ephemeral scalar 0, a scalar candidate above the group order, ...).  The prefix is chosen by the stream NAME
+/// (`...#zero64`, `...#ones32`, `...#zero96`), so that every place that re-creates the stream gets the same bytes.
+pub struct PrefixRng {
+    prefix: Vec<u8>,
+    pos: usize,
+    inner: ChaCha20Rng,
+}
+pub fn tape_rng(seed: u64, stream: &str) -> PrefixRng {
+    let mut prefix = vec![];
+    if let Some((_, tag)) = stream.rsplit_once('#') {
+        let (byte, n) = if let Some(n) = tag.strip_prefix("zero") { (0u8, n) } else if let Some(n) = tag.strip_prefix("ones") { (0xffu8, n) } else { (0, "0") };
+        prefix = vec![byte; n.parse().unwrap_or(0)];
+    }
+    PrefixRng { prefix, pos: 0, inner: rng(seed, stream) }
+}
+impl rand::RngCore for PrefixRng {
+    fn next_u32(&mut self) -> u32 {
+        let mut b = [0u8; 4];
+        self.fill_bytes(&mut b);
+        u32::from_le_bytes(b)
+    }
+    fn next_u64(&mut self) -> u64 {
+        let mut b = [0u8; 8];
+        self.fill_bytes(&mut b);
+        u64::from_le_bytes(b)
+    }
+    fn fill_bytes(&mut self, dest: &mut [u8]) {
+        let k = (self.prefix.len() - self.pos).min(dest.len());
+        dest[..k].copy_from_slice(&self.prefix[self.pos..self.pos + k]);
+        self.pos += k;
+        if k < dest.len() {
+            self.inner.fill_bytes(&mut dest[k..]);
+        }
+    }
+    fn try_fill_bytes(&mut self, dest: &mut [u8]) -> Result<(), rand::Error> {
+        self.fill_bytes(dest);
+        Ok(())
+    }
+}
+impl rand::CryptoRng for PrefixRng {}
+
 /// `[1; 2; 255]` (in N_scope) for a byte string.
 pub fn coq_bytes(b: &[u8]) -> String {
     let mut s = String::with_capacity(b.len() * 4 + 2);
